@@ -416,3 +416,22 @@ Definition spec_conc (limit reqs n200 n503 peak gathers dones : Z) : bool :=
   (n200 + n503 =? reqs) && (gathers =? n200) && (dones =? gathers) && (0 <=? n503) &&
   (if 0 <? limit then (peak <=? limit) else (n503 =? 0)) && (peak <=? reqs) &&
   (if reqs <=? limit then n503 =? 0 else true).
+
+(* a scripted schedule, judged on the implementation's own per-event outcomes: a fresh request may be let in (1)
+   only while fewer than [limit] gathers run (or no limit is set), and may be rejected (2) only when a limit is
+   set and [limit] gathers run; anything else must report 0 *)
+Fixpoint spec_sched (limit : Z) (th : list (Z * tstate)) (es : list ev) (outs : list Z) : bool :=
+  match es, outs with
+  | [], [] => true
+  | Start t :: es', o :: outs' =>
+      match tlookup t th with
+      | Some _ => (o =? 0) && spec_sched limit th es' outs'
+      | None =>
+          if o =? 1 then ((limit <=? 0) || (runl th <? limit)) && spec_sched limit ((t, TRunning) :: th) es' outs'
+          else if o =? 2 then (0 <? limit) && (limit <=? runl th) && spec_sched limit ((t, TRejected) :: th) es' outs'
+          else false
+      end
+  | End t _ :: es', o :: outs' =>
+      (o =? 0) && spec_sched limit (match tlookup t th with Some TRunning => tset t TFinished th | _ => th end) es' outs'
+  | _, _ => false
+  end.
